@@ -4,7 +4,7 @@
 ID=$1; WT=$2; OUT=$3; DEST=$4
 low=$(echo $ID | tr 'A-Z' 'a-z')
 cd $WT || exit 2
-git checkout -q -- . ; rm -f tests/demo_*.rs
+git reset -q; git checkout -q -- . ; git clean -fdq -- src; rm -f tests/demo_*.rs
 [ -f $OUT/patch.diff ] || { echo "CONFIRM $DEST: no patch.diff"; exit 1; }
 git apply $OUT/patch.diff || { echo "CONFIRM $DEST: patch does not apply"; exit 1; }
 lines=$(grep -cE '^[+-][^+-]' $OUT/patch.diff)
